@@ -18,6 +18,17 @@ TIME_DIM = model.dim_key(model.LIB_BY_STEM["seconds"].dim)
 FORMS = (("rv", "rvalue"), ("lv", "lvalue"), ("cl", "const lvalue"))
 
 
+REPLAY_CAP = 50   # replay artefacts are written for the first violations only (finish() prints <= 50)
+
+
+def _viol(run, key, what, obj):
+    """Record a violation; write its replay artefact unless it is a known finding or beyond the cap."""
+    rp = None
+    if run.match_known(key) is None and len(run.violations) < REPLAY_CAP:
+        rp = run.write_replay(key, dict(obj, what=what))
+    run.violation(key, what, rp)
+
+
 def _by_name():
     return {d.name: d for d in G.durations() + G.named_durations()}
 
@@ -26,9 +37,10 @@ def _by_name():
 def static_records(allD):
     recs, meta = [], {}
     for d in allD:
-        rid = len(recs)
-        recs.append((rid, G.static_stmts(d)))
-        meta[rid] = ("static", d, None)
+        for part in ("asq", "acd"):
+            rid = len(recs)
+            recs.append((rid, G.static_stmts(d, part)))
+            meta[rid] = (part, d, None)
     for d in allD:
         for t in G.targets():
             rid = len(recs)
@@ -37,14 +49,23 @@ def static_records(allD):
     return recs, meta
 
 
-def judge_static(d, o):
-    """-> list of (key, what) for one static record."""
+def judge_static(d, part, o):
+    """-> list of (key, what) for one type-level record."""
     out = []
-    if not o["dur_rep_same"] or not o["dur_period_same"]:
+    if part == "asq" and not (o["dur_rep_same"] and o["dur_period_same"]):
         raise core.InfraError("harness assumption broken: %s is not duration<%s, ratio<%d,%d>>"
                               % (d.cpp, d.rep, d.num, d.den))
     exp = G.expected_ratio_key(d)
     for tag, cat in FORMS:
+        if part == "acd":
+            if not o["acd_period_same_" + tag]:
+                out.append(("C17:as_chrono_duration-period:%s" % d.name,
+                            "as_chrono_duration(as_quantity(%s %s))::period is not ratio<%d,%d>"
+                            % (cat, d.name, d.num, d.den)))
+            if not o["acd_rep_same_" + tag]:
+                out.append(("C17:as_chrono_duration-rep:%s" % d.name,
+                            "as_chrono_duration(as_quantity(%s %s))::rep is not %s" % (cat, d.name, d.rep)))
+            continue
         if not o["q_rep_same_" + tag]:
             out.append(("C17:as_quantity-rep:%s" % d.name,
                         "as_quantity(%s %s) does not have rep %s" % (cat, d.name, d.rep)))
@@ -54,13 +75,6 @@ def judge_static(d, o):
             out.append(("C17:as_quantity-unit:%s" % d.name,
                         "unit of as_quantity(%s %s): ratio to seconds %s dim %s; Period is %d/%d = %s"
                         % (cat, d.name, got, dim, d.num, d.den, exp)))
-        if not o["acd_period_same_" + tag]:
-            out.append(("C17:as_chrono_duration-period:%s" % d.name,
-                        "as_chrono_duration(as_quantity(%s %s))::period is not ratio<%d,%d>"
-                        % (cat, d.name, d.num, d.den)))
-        if not o["acd_rep_same_" + tag]:
-            out.append(("C17:as_chrono_duration-rep:%s" % d.name,
-                        "as_chrono_duration(as_quantity(%s %s))::rep is not %s" % (cat, d.name, d.rep)))
         if not o["back_implicit_" + tag]:
             out.append(("C17:back-implicit-rejected:%s" % d.name,
                         "as_quantity(%s %s) is not implicitly convertible back to the duration"
@@ -88,25 +102,22 @@ def run_static(run, cfgs, allD):
                                    chunk=max(20, len(recs) // (core.NCPU * 2) + 1))
         for rid, diag in sorted(failed.items()):
             kind, d, t = meta[rid]
-            if kind == "static":
-                key = "C17:static-rejected:%s" % d.name
-                what = "%s: as_quantity / as_chrono_duration type-level use of %s does not compile: %s" % (cfg, d.name, diag)
+            if kind != "accept":
+                key = "C17:%s-rejected:%s" % ({"asq": "as_quantity", "acd": "as_chrono_duration"}[kind], d.name)
+                what = "%s: type-level use of %s on %s does not compile: %s" % (
+                    cfg, {"asq": "as_quantity(d)", "acd": "as_chrono_duration(as_quantity(d))"}[kind], d.name, diag)
             else:
                 key = "C17:hard-error:%s->%s" % (d.name, t[0])
                 what = ("%s: asking std::is_convertible<%s, %s> (or the same question for Quantity<Seconds*%d/%d,%s>) "
                         "is a hard compile error instead of true/false: %s" % (cfg, d.name, t[0], d.num, d.den, d.rep, diag))
                 stats["hard_errors"] += 1
-            rp = None
-            if run.match_known(key) is None:
-                rp = run.write_replay(key, {"kind": "dump", "record": kind, "dur": d.name,
-                                            "target": t[0] if t else None, "config": [cfg.cxx, cfg.std],
-                                            "what": what})
-            run.violation(key, what, rp)
+            _viol(run, key, what, {"kind": "dump", "record": kind, "dur": d.name,
+                                   "target": t[0] if t else None, "config": [cfg.cxx, cfg.std]})
         for rid, o in res.items():
             kind, d, t = meta[rid]
             stats["records"] += 1
-            if kind == "static":
-                v = judge_static(d, o)
+            if kind != "accept":
+                v = judge_static(d, kind, o)
             else:
                 v = judge_accept(d, t, o)
                 stats["accept_true" if o["qty"] else "accept_false"] += 1
@@ -116,18 +127,17 @@ def run_static(run, cfgs, allD):
                     stats["model_mismatch"].append({"dur": d.name, "target": t[0], "documented_policy": pred,
                                                     "observed": o["qty"], "config": str(cfg)})
             for key, what in v:
-                rp = None
-                if run.match_known(key) is None:
-                    rp = run.write_replay(key, {"kind": "dump", "record": kind, "dur": d.name,
-                                                "target": t[0] if t else None, "config": [cfg.cxx, cfg.std],
-                                                "observed": o, "what": what})
-                run.violation(key, "%s: %s" % (cfg, what), rp)
+                _viol(run, key, "%s: %s" % (cfg, what), {"kind": "dump", "record": kind, "dur": d.name,
+                                                        "target": t[0] if t else None,
+                                                        "config": [cfg.cxx, cfg.std], "observed": o})
     stats["durations_with_both_accept_outcomes"] = sum(1 for s in both.values() if len(s) == 2)
     return stats
 
 
 # ------------------------------------------------------------------------------ run-time sweeps
-def _build_run(run, cfg, tag, emit, groups, flags, parts=1):
+def _build_run(run, cfg, tag, emit, groups, flags, parts=1, failed=None):
+    """Build one TU per group, run them all, parse S/V lines.  With `failed` (a list), groups whose TU
+    does not compile are appended to it instead of being an infrastructure error."""
     wd = os.path.join(run.wd, tag + "_" + cfg.name)
     os.makedirs(wd, exist_ok=True)
     fl = list(flags)
@@ -137,11 +147,14 @@ def _build_run(run, cfg, tag, emit, groups, flags, parts=1):
         emit(src, groups[k])
         rc, err = core.build_exe(cfg, src, exe, fl)
         if rc != 0:
-            raise core.InfraError("probe-accepted sweep TU failed to build (%s):\n%s" % (src, err[-3000:]))
+            if failed is None:
+                raise core.InfraError("probe-accepted sweep TU failed to build (%s):\n%s" % (src, err[-3000:]))
+            failed.append(groups[k])
+            return None
         return exe
 
     core.pch_dir(cfg, fl)
-    exes = core.pmap(build, range(len(groups)))
+    exes = [e for e in core.pmap(build, range(len(groups))) if e]
 
     def go(job):
         exe, part = job
@@ -173,14 +186,13 @@ def run_roundtrip(run, cfg, allD, w, full32):
         if res[i][0] != "accept":
             key = "C17:roundtrip-rejected:%s" % d.name
             what = "%s: as_quantity / implicit round trip / as_chrono_duration of %s does not compile: %s" % (cfg, d.name, res[i][1])
-            run.violation(key, what, run.write_replay(key, {"kind": "probe", "code": probes[i].code,
-                                                            "config": [cfg.cxx, cfg.std], "what": what}))
+            _viol(run, key, what, {"kind": "probe", "code": probes[i].code, "config": [cfg.cxx, cfg.std]})
             continue
         insts.append((i, d))
         ivs[i] = G.roundtrip_intervals(d.rep, w, full32)
     n = min(core.NCPU, len(insts))
     groups = [insts[k::n] for k in range(n)]
-    S, V = _build_run(run, cfg, "rt", lambda src, g: G.emit_roundtrip_tu(src, g, ivs), groups, ["-O2"],
+    S, V = _build_run(run, cfg, "rt", lambda src, g: G.emit_roundtrip_tu(src, g, ivs), groups, ["-O1"],
                       parts=4 if full32 else 1)
     for v in V:
         d = allD[v["inst"]]
@@ -190,31 +202,59 @@ def run_roundtrip(run, cfg, allD, w, full32):
             "back-implicit": "D back = as_quantity(d); back.count()",
             "back-as_chrono_duration": "as_chrono_duration(as_quantity(d)).count()",
             "implicit-accept-value": "Quantity q = d; q.in(unit)"}[v["kind"]], v["got"]))
-        rp = None
-        if run.match_known(key) is None:
-            rp = run.write_replay(key, {"kind": "roundtrip", "dur": d.name, "item": [v["ik"], v["iv"]],
-                                        "config": [cfg.cxx, cfg.std], "observed": v, "what": what})
-        run.violation(key, what, rp)
+        _viol(run, key, what, {"kind": "roundtrip", "dur": d.name, "item": [v["ik"], v["iv"]],
+                               "config": [cfg.cxx, cfg.std], "observed": v})
     if len(S) != len(insts):
         raise core.InfraError("round-trip sweep: %d of %d instances reported" % (len(S), len(insts)))
     return {"types": len(insts), "evals": sum(s["evals"] for s in S), "nan_counts": sum(s["nans"] for s in S),
             "raw_violations": sum(s["viol"] for s in S)}
 
 
+FORMS4 = ("dq", "qd", "qq", "acd")
+
+
 def run_mixed(run, cfg, durs, pairs, lo8, hi8):
-    """pairs: list of (i, j) indices into durs."""
-    probes = []
-    for (i, j) in pairs:
-        a, b = durs[i], durs[j]
-        exp = "accept" if G.predicted_mixed_accept(a, b) else "reject"
-        for f in ("dq", "qd", "qq", "acd"):
-            probes.append(core.Probe((i, j, f), G.mixed_probe(a, b, f), exp))
-    res, _ = core.run_probes(cfg, probes, os.path.join(run.wd, "mxp_" + cfg.name), "mx", batch=24)
+    """pairs: list of (i, j) indices into durs.
+
+    Acceptance is observed, never assumed: a pair counts as accepted when a sweep TU containing all
+    four forms of it (duration op quantity, quantity op duration, quantity op quantity,
+    as_chrono_duration of the mixed sums) compiles; predicted-reject pairs, and every pair of a TU
+    that does not compile, are decided form by form with single-line probes."""
+    wdp = os.path.join(run.wd, "mxp_" + cfg.name)
+    emit = lambda src, g: G.emit_mixed_tu(src, g, lo8, hi8)
+    verdict, diag = {}, {}
+
+    def probe(ps, exp, tag):
+        pr = [core.Probe((i, j, f), G.mixed_probe(durs[i], durs[j], f), exp) for (i, j) in ps for f in FORMS4]
+        res, _ = core.run_probes(cfg, pr, wdp, tag, batch=24)
+        for (i, j) in ps:
+            verdict[(i, j)] = {f: res[(i, j, f)][0] for f in FORMS4}
+            diag[(i, j)] = next((res[(i, j, f)][1] for f in FORMS4 if res[(i, j, f)][1]), "")
+
+    pred = {p: G.predicted_mixed_accept(durs[p[0]], durs[p[1]]) for p in pairs}
+    probe([p for p in pairs if not pred[p]], "reject", "mxr")
+    todo = [p for p in pairs if pred[p]] + [p for p in pairs if not pred[p] and
+                                            all(v == "accept" for v in verdict[p].values())]
+    idx = {k: p for k, p in enumerate(todo)}
+    insts = [(k, durs[i], durs[j]) for k, (i, j) in idx.items()]
+    n = max(1, min(core.NCPU * 2, len(insts)))
+    bad = []
+    S, V = _build_run(run, cfg, "mx", emit, [insts[k::n] for k in range(n)], ["-O1"], failed=bad)
+    if bad:
+        again = [x for g in bad for x in g]
+        probe([idx[k] for k, _, _ in again], "accept", "mxa")
+        ok = [x for x in again if all(v == "accept" for v in verdict[idx[x[0]]].values())]
+        if ok:
+            m = max(1, min(core.NCPU * 2, len(ok)))
+            S2, V2 = _build_run(run, cfg, "mx2", emit, [ok[k::m] for k in range(m)], ["-O1"])
+            S, V = S + S2, V + V2
+    for p in todo:
+        verdict.setdefault(p, {f: "accept" for f in FORMS4})
     acc, rej, mism = [], [], 0
     for (i, j) in pairs:
         a, b = durs[i], durs[j]
-        v = {f: res[(i, j, f)][0] for f in ("dq", "qd", "qq", "acd")}
-        if (v["qq"] == "accept") != G.predicted_mixed_accept(a, b):
+        v = verdict[(i, j)]
+        if (v["qq"] == "accept") != pred[(i, j)]:
             mism += 1
         for f in ("dq", "qd"):
             if v[f] != v["qq"]:
@@ -222,28 +262,22 @@ def run_mixed(run, cfg, durs, pairs, lo8, hi8):
                 what = ("%s: the eight operators on (%s, %s) are %sed in the form %s but %sed when both operands are "
                         "the corresponding quantities (%s)" % (cfg, a.name, b.name, v[f],
                                                                "duration op quantity" if f == "dq" else "quantity op duration",
-                                                               v["qq"], res[(i, j, f)][1] or res[(i, j, "qq")][1]))
-                run.violation(key, what, run.write_replay(key, {
-                    "kind": "mixed-accept", "a": a.name, "b": b.name, "form": f, "config": [cfg.cxx, cfg.std], "what": what}))
+                                                               v["qq"], diag.get((i, j), "")))
+                _viol(run, key, what, {"kind": "mixed-accept", "a": a.name, "b": b.name, "form": f,
+                                       "config": [cfg.cxx, cfg.std]})
         if v["dq"] == "accept" and v["qd"] == "accept" and v["acd"] != "accept":
             key = "C17:mixed-sum-not-a-duration:%s:%s" % (a.name, b.name)
             what = ("%s: the mixed sums/differences of (%s, %s) compile but as_chrono_duration() of them does not: %s"
-                    % (cfg, a.name, b.name, res[(i, j, "acd")][1]))
-            run.violation(key, what, run.write_replay(key, {
-                "kind": "probe", "code": G.mixed_probe(a, b, "acd"), "config": [cfg.cxx, cfg.std], "what": what}))
-        if all(v[f] == "accept" for f in ("dq", "qd", "acd")):
+                    % (cfg, a.name, b.name, diag.get((i, j), "")))
+            _viol(run, key, what, {"kind": "probe", "code": G.mixed_probe(a, b, "acd"), "config": [cfg.cxx, cfg.std]})
+        if all(x == "accept" for x in v.values()):
             acc.append((i, j))
         else:
             rej.append((i, j))
     if len(acc) < 0.5 * len(pairs) and not run.violations:
         raise core.InfraError("vacuity guard: only %d of %d ordered duration pairs accept mixed operations" % (len(acc), len(pairs)))
-    idx = {k: p for k, p in enumerate(acc)}
-    insts = [(k, durs[i], durs[j]) for k, (i, j) in idx.items()]
-    n = min(core.NCPU * 2, len(insts))
-    groups = [insts[k::n] for k in range(n)]
-    S, V = _build_run(run, cfg, "mx", lambda src, g: G.emit_mixed_tu(src, g, lo8, hi8), groups, ["-O1"])
-    if len(S) != len(insts):
-        raise core.InfraError("mixed sweep: %d of %d pairs reported" % (len(S), len(insts)))
+    if len(S) != len(acc):
+        raise core.InfraError("mixed sweep: %d of %d accepted pairs reported" % (len(S), len(acc)))
     od = [s for s in S if s["oracle_disagree"]]
     if od:
         i, j = idx[od[0]["inst"]]
@@ -256,15 +290,12 @@ def run_mixed(run, cfg, durs, pairs, lo8, hi8):
         l = "%s{%s}" % (a.name, v["a"]) if v["form"] == "dq" else "as_quantity(%s{%s})" % (a.name, v["a"])
         r = "%s{%s}" % (b.name, v["b"]) if v["form"] == "qd" else "as_quantity(%s{%s})" % (b.name, v["b"])
         what = "%s: %s %s %s gives %s; inside chrono %s (exact %s)" % (cfg, l, v["op"], r, v["au"], v["chrono"], v["exact"])
-        rp = None
-        if run.match_known(key) is None:
-            rp = run.write_replay(key, {"kind": "mixed", "a": a.name, "b": b.name, "x": v["a"], "y": v["b"],
-                                        "op": v["op"], "form": v["form"], "config": [cfg.cxx, cfg.std],
-                                        "observed": v, "what": what})
-        run.violation(key, what, rp)
+        _viol(run, key, what, {"kind": "mixed", "a": a.name, "b": b.name, "x": v["a"], "y": v["b"],
+                               "op": v["op"], "form": v["form"], "config": [cfg.cxx, cfg.std], "observed": v})
     full = (1 << 6) - 1
     return {"pairs": len(pairs), "pairs_accepted": len(acc), "pairs_rejected_by_policy": len(rej),
-            "policy_prediction_mismatch": mism,
+            "policy_prediction_mismatch": mism, "sweep_tus_that_needed_per_pair_probing": len(bad),
+            "quantity_op_quantity_disagreements_with_chrono_info": sum(s["qq_disagree"] for s in S),
             "value_pairs": sum(s["evals"] for s in S), "op_evaluations": sum(s["ops"] for s in S),
             "skipped_chrono_conversion_overflow": sum(s["skip_conv"] for s in S),
             "skipped_chrono_sum_overflow": sum(s["skip_arith"] for s in S),
@@ -353,16 +384,16 @@ def replay(path):
     hit, kind = [], r.get("kind")
     if kind == "dump":
         d = D[r["dur"]]
-        if r["record"] == "static":
-            recs = [(0, G.static_stmts(d))]
+        if r["record"] != "accept":
+            recs = [(0, G.static_stmts(d, r["record"]))]
         else:
             t = [t for t in G.targets() if t[0] == r["target"]][0]
             recs = [(0, G.accept_stmts(d, t[1]))]
         res, failed = psx.run_dump(cfg, recs, run.wd, "rp")
         if failed:
             hit.append("does not compile: %s" % failed[0])
-        elif r["record"] == "static":
-            hit += [w for _, w in judge_static(d, res[0])]
+        elif r["record"] != "accept":
+            hit += [w for _, w in judge_static(d, r["record"], res[0])]
         else:
             hit += [w for _, w in judge_accept(d, t, res[0])]
     elif kind in ("probe", "mixed-accept"):
@@ -377,7 +408,7 @@ def replay(path):
     elif kind == "roundtrip":
         d = D[r["dur"]]
         k, v = int(r["item"][0]), int(r["item"][1])
-        S, V = _build_run(run, cfg, "rp", lambda src, g: G.emit_roundtrip_tu(src, g, {0: [(k, v, v)]}), [[(0, d)]], ["-O2"])
+        S, V = _build_run(run, cfg, "rp", lambda src, g: G.emit_roundtrip_tu(src, g, {0: [(k, v, v)]}), [[(0, d)]], ["-O1"])
         hit += [json.dumps(x) for x in V]
     elif kind == "mixed":
         a, b = D[r["a"]], D[r["b"]]
